@@ -127,7 +127,11 @@ def check_wrap(cfg, crate, rep):
         rep.ob("C01.wrap", key + "|unconditional", cond is True, "the signature is written on every path", found=F.show(cond))
         # the `?` on sign
         tried = any(core(v) is not None and n2.get("e") is n for v, n2, f2, c2 in I.tries)
-        rep.ob("C01.err", key + "|sign?", tried, "the result of KeyPair::sign is propagated with `?`", sp=n.get("sp"))
+        how = None
+        for node_, ps_ in common.hir_walk_p(crate.body(SIGN_DER)["hir"]):
+            if node_ is n:
+                how = _consumed(node_, ps_)
+        rep.ob("C01.err", key + "|sign?", tried or how in ("?", "tail", "return", "closure-result"), "the result of KeyPair::sign is propagated (`?` or returned as the closure's result), never discarded", found=how, sp=n.get("sp"))
     # outer AlgorithmIdentifier from self.alg through write_alg_ident
     alg = kids[1][2]
     m = S.Matcher(I, rep, "C01.wrap", key)
